@@ -31,6 +31,7 @@ fn main() {
         )),
         "c01" => Box::new(fvh::c01::C01 {
             max_size: args.p_u64("max_size", 3000) as usize,
+            light: args.p_bool("light"),
         }),
         "c03" => Box::new(fvh::c03::C03 {}),
         "c04" => Box::new(fvh::c04::C04 {
